@@ -572,7 +572,7 @@ class _Killed(BaseException):
     """stands for the process being gone (Ctrl-C / OOM / power) inside the emission generation"""
 
 
-def run_setup_history(root, runs):
+def run_setup_history(root, runs, post_materialize=None):
     """runs: [(cfg, kill)] with kill in "c" (after check_generator_files), "i" (after setup_infrastructure),
     "f<k>" (inside setup_emissions, after k scenario files of that call), "m" (after the marker was written, before
     anything is handed out) or "x" (complete).  Every run rewrites the input files of `cfg` into the SAME folder
@@ -586,7 +586,9 @@ def run_setup_history(root, runs):
     out = []
     gdir = pathlib.Path(root) / "inputs" / Generator_Files.GENERATOR_FOLDER
     for cfg, kill in runs:
-        files, _, _ = W.materialize(cfg, str(root))
+        files, in_dir_, _ = W.materialize(cfg, str(root))
+        if post_materialize is not None:
+            post_materialize(in_dir_, cfg)
         rec = {"kill": kill, "hash_file_exists": None, "generated": [], "handed": None}
         with contextlib.redirect_stdout(io.StringIO()):
             mgr = SimulationManager(input_manager=InputManager(), parameter_filenames=[Path(f) for f in files])
@@ -633,6 +635,61 @@ def run_setup_history(root, runs):
         rec["marker"] = int(_read_pickle(nloc)) if nloc.exists() else None
         out.append(rec)
     return out
+
+
+# ------------------------------------------------------------------------------------------------
+# granular infrastructure files with per-level overrides of the emission parameters
+# ------------------------------------------------------------------------------------------------
+def _cell(v):
+    if v is None:
+        return ""
+    if isinstance(v, bool):
+        return "TRUE" if v else "FALSE"
+    return repr(v) if isinstance(v, float) else str(v)
+
+
+def write_granular_overrides(in_dir, cfg, ov):
+    """rewrite sites.csv / site_type.csv / equipment.csv / sources.csv of a GRANULAR configuration with extra
+    columns.  ov = {"site_types": {type: {col: v}}, "sites": {site id: {col: v}}, "equipment": {eq: {col: v}},
+    "sources": {(component, source): {col: v}}}; None = blank cell (inherit).  Higher levels use the prefixed
+    column names (repairable_duration ...), the sources file the unprefixed ones (duration ...)."""
+    import csv as _csv
+
+    def cols_of(level):
+        out = []
+        for d in ov.get(level, {}).values():
+            for c in d:
+                if c not in out:
+                    out.append(c)
+        return out
+
+    c_t, c_s, c_e, c_src = cols_of("site_types"), cols_of("sites"), cols_of("equipment"), cols_of("sources")
+    with open(os.path.join(in_dir, "sites.csv"), "w", newline="") as fh:
+        w = _csv.writer(fh)
+        w.writerow(["site_ID", "lat", "lon", "site_type"] + c_s)
+        for s_ in cfg["sites"]:
+            o = ov.get("sites", {}).get(s_["id"], {})
+            w.writerow([s_["id"], s_["lat"], s_["lon"], s_["type"]] + [_cell(o.get(c)) for c in c_s])
+    with open(os.path.join(in_dir, "site_type.csv"), "w", newline="") as fh:
+        w = _csv.writer(fh)
+        w.writerow(["site_type", "equipment"] + c_t)
+        for t, eqs in cfg["site_types"].items():
+            o = ov.get("site_types", {}).get(t, {})
+            w.writerow([t, ";".join(eqs) + ";"] + [_cell(o.get(c)) for c in c_t])
+    comps = sorted({c for e in cfg["equipment"].values() for c in e})
+    with open(os.path.join(in_dir, "equipment.csv"), "w", newline="") as fh:
+        w = _csv.writer(fh)
+        w.writerow(["equipment"] + comps + c_e)
+        for e, cc in cfg["equipment"].items():
+            o = ov.get("equipment", {}).get(e, {})
+            w.writerow([e] + [cc.get(c, 0) for c in comps] + [_cell(o.get(c)) for c in c_e])
+    with open(os.path.join(in_dir, "sources.csv"), "w", newline="") as fh:
+        w = _csv.writer(fh)
+        w.writerow(["component", "source", "repairable", "persistent", "active_duration", "inactive_duration"] + c_src)
+        for s_ in cfg["sources"]:
+            o = ov.get("sources", {}).get((s_["component"], s_["source"]), {})
+            w.writerow([s_["component"], s_["source"], "TRUE" if s_["repairable"] else "FALSE",
+                        "TRUE" if s_["persistent"] else "FALSE", s_["active"], s_["inactive"]] + [_cell(o.get(c)) for c in c_src])
 
 
 # ------------------------------------------------------------------------------------------------
